@@ -1,7 +1,8 @@
 import Pk.Tree
-/-! Design experiment: C02 on the abstract tree — the lifted state block depends only on the state block. -/
+/-! C02 on the stage tree — the lifted state block depends only on the state block of the input
+(and on the widths the stage was fitted with). Core Lean only. -/
 namespace Pk
-variable {α : Type}
+variable {α : Type} {κ : Type}
 
 theorem map_congr_of_map_eq {β γ δ : Type} (p : β → γ) (q : β → δ) (X X' : List β)
     (h : X.map p = X'.map p) (hq : ∀ r r', p r = p r' → q r = q r') : X.map q = X'.map q := by
@@ -40,18 +41,36 @@ theorem zipXU_x (A B : Ep α) :
   apply map_x_zipXU'
   rw [lastN_length, lastN_length]; omega
 
+
+theorem map_congr_of_map_eq_mem {β γ δ : Type} (p : β → γ) (q : β → δ) (X X' : List β)
+    (h : X.map p = X'.map p) (hq : ∀ r ∈ X, ∀ r' ∈ X', p r = p r' → q r = q r') : X.map q = X'.map q := by
+  induction X generalizing X' with
+  | nil => cases X' with
+    | nil => rfl
+    | cons b t => simp at h
+  | cons a t ih =>
+    cases X' with
+    | nil => simp at h
+    | cons b t' =>
+      simp only [List.map_cons, List.cons.injEq] at h ⊢
+      exact ⟨hq a (by simp) b (by simp) h.1,
+        ih t' h.2 (fun r hr r' hr' => hq r (by simp [hr]) r' (by simp [hr']))⟩
+
 variable (env : κ → RowFn α)
 
+/-- the new state block is a function of the old state block (given equal input widths) -/
 structure XLoc (env : κ → RowFn α) : Prop where
-  xloc : ∀ k r r', r.x = r'.x → ((env k).f r).x = ((env k).f r').x
+  xloc : ∀ k r r', r.x = r'.x → r.u.length = r'.u.length → ((env k).f r).x = ((env k).f r').x
 
 mutual
-theorem Stage.x_local (hL : XLoc env) (s : Stage κ) (X X' : Ep α) (h : X.map (·.x) = X'.map (·.x)) :
+theorem Stage.x_local (hE : EnvLaws env) (hL : XLoc env) (s : Stage κ) (wx wu : Nat) (X X' : Ep α)
+    (hX : Typed wx wu X) (hX' : Typed wx wu X') (h : X.map (·.x) = X'.map (·.x)) :
     (Stage.tr env s X).map (·.x) = (Stage.tr env s X').map (·.x) := by
   cases s with
   | rw k =>
     simp only [Stage.tr, List.map_map]
-    exact map_congr_of_map_eq (·.x) _ X X' h (fun r r' hr => hL.xloc k r r' hr)
+    exact map_congr_of_map_eq_mem (·.x) _ X X' h
+      (fun r hr r' hr' e => hL.xloc k r r' e (by rw [(hX r hr).2, (hX' r' hr').2]))
   | delay dx du =>
     have hlen := length_of_map_eq _ X X' h
     simp only [Stage.tr, delayEp]
@@ -62,14 +81,16 @@ theorem Stage.x_local (hL : XLoc env) (s : Stage κ) (X X' : Ep α) (h : X.map (
     simp only [Stage.tr]
     rw [zipXU_x, zipXU_x, onlyX_eq_of_x X X' h]
     rw [Stages.length_tr env b (onlyU X), Stages.length_tr env b (onlyU X'), onlyU_length, onlyU_length, hlen]
-  | pipe ss => simpa [Stage.tr] using Stages.x_local hL ss X X' h
-theorem Stages.x_local (hL : XLoc env) (ss : Stages κ) (X X' : Ep α) (h : X.map (·.x) = X'.map (·.x)) :
+  | pipe ss => simpa [Stage.tr] using Stages.x_local hE hL ss wx wu X X' hX hX' h
+theorem Stages.x_local (hE : EnvLaws env) (hL : XLoc env) (ss : Stages κ) (wx wu : Nat) (X X' : Ep α)
+    (hX : Typed wx wu X) (hX' : Typed wx wu X') (h : X.map (·.x) = X'.map (·.x)) :
     (Stages.tr env ss X).map (·.x) = (Stages.tr env ss X').map (·.x) := by
   cases ss with
   | nil => simpa [Stages.tr] using h
   | cons s rest =>
     simp only [Stages.tr]
-    exact Stages.x_local hL rest _ _ (Stage.x_local hL s X X' h)
+    exact Stages.x_local hE hL rest _ _ _ _ (Stage.typed_tr env hE s wx wu X hX)
+      (Stage.typed_tr env hE s wx wu X' hX') (Stage.x_local hE hL s wx wu X X' hX hX' h)
 end
 
 end Pk
